@@ -9,6 +9,7 @@ the enumerated space and for random large tables.
 """
 
 import itertools
+import os
 import math
 import warnings
 from fractions import Fraction
@@ -34,6 +35,7 @@ VALUES = [None, 0, 1, 2, 5]
 def bounds(tier):
     return {"enumerated_platforms": 3, "row_values": [str(v) for v in VALUES],
             "random_tables": 400 if tier == "quick" else 20000, "random_max_platforms": 8,
+            "clustering_per_shard": 12 if tier == "quick" else 150,
             "random_max_count": 10 ** 12}
 
 
@@ -45,7 +47,8 @@ def required_cells(tier):
     return ["undefined:coverage-no-lines", "undefined:coverage-no-platforms", "undefined:divergence-lt2",
             "undefined:distance-empty-union", "row:empty-set", "row:zero-count", "shared-only-platform",
             "arg:subset-size-1", "arg:subset-size-k-1", "meta:rename", "meta:reorder", "meta:scale",
-            "class:enum", "class:random", "names:substring-related", "meta:rename-case-variants"]
+            "class:enum", "class:random", "names:substring-related", "meta:rename-case-variants",
+            "class:clustering", "clustering:platforms>=4", "clustering:>=4-distinct-distances", "clustering:average-marker"]
 
 
 # ---------------------------------------------------------------- oracle --
@@ -313,6 +316,59 @@ def check_table(rows, report, watch, rng):
     return problems, cells
 
 
+def check_clustering(rows, report, workdir):
+    """The clustering report on a table: printed distance matrix (labels in sorted order, every cell) and the position
+    of the dashed 'Average' marker in the dendrogram figure (read from the live matplotlib figure) against the
+    reference.  Returns (problems, cells); tables with an undefined distance are skipped (premise of the report)."""
+    import io
+    from cbimon import cli
+    table = mk(rows)
+    ps = sorted(ref_platforms(table))
+    if len(ps) < 2 or any(ref_distance(table, p, q) is None for p in ps for q in ps):
+        return None, set()
+    import matplotlib
+    matplotlib.use("Agg")
+    from matplotlib import pyplot as plt
+    buf = io.StringIO()
+    problems = []
+    cells = {"clustering:platforms>=4" if len(ps) >= 4 else "clustering:platforms<4"}
+    try:
+        plt.close("all")
+        with warnings.catch_warnings():
+            warnings.simplefilter("ignore")
+            report.clustering(os.path.join(workdir, "dendrogram.png"), table, stream=buf)
+        hdr, cellsm = cli.parse_distance_matrix(buf.getvalue())
+        if hdr != ps:
+            problems.append({"metric": "clustering-labels", "args": None, "expected": ps, "observed": hdr})
+        else:
+            for p in ps:
+                for q in ps:
+                    e = ref_distance(table, p, q)
+                    v = cellsm.get((p, q))
+                    try:
+                        ok = v is not None and abs(float(v) - float(e)) <= 0.005 + 1e-9
+                    except ValueError:
+                        ok = False
+                    if not ok:
+                        problems.append({"metric": "clustering-matrix-cell", "args": [p, q], "expected": str(e), "observed": v})
+        dv, amb = ref_divergence(table)
+        marks = [ln for ax in plt.gcf().axes for ln in ax.lines if ln.get_linestyle() == "--"]
+        if len(marks) != 1:
+            problems.append({"metric": "clustering-average-marker", "args": None, "expected": "one dashed line", "observed": len(marks)})
+        elif dv is not None:
+            x = float(marks[0].get_xdata()[0])
+            cells.add("clustering:average-marker")
+            if abs(x - float(dv)) > 1e-9:
+                problems.append({"metric": "clustering-average-marker", "args": None, "expected": str(dv), "observed": repr(x)})
+        if len({str(ref_distance(table, p, q)) for i, p in enumerate(ps) for q in ps[i + 1:]}) >= 4:
+            cells.add("clustering:>=4-distinct-distances")
+    except Exception as e:
+        problems.append({"metric": "clustering", "args": None, "expected": "report", "observed": f"{type(e).__name__}: {e}"})
+    finally:
+        plt.close("all")
+    return problems[:4], cells
+
+
 def classify(problem, rows):
     """Mechanism key of a violation (known-finding predicates; see known_findings.json)."""
     table = mk(rows)
@@ -357,8 +413,23 @@ def run_shard(ctx):
 
     for rows in enum_tables(ctx.tier, ctx.shard, ctx.nshards):
         do(rows, "enum")
+    n_clu = 0
+    work = ctx.subdir("clu")
     for rows in random_tables(ctx):
         do(rows, "random")
+        # the clustering report (matrix + figure) on every table that defines all its distances, up to a budget
+        if n_clu < bounds(ctx.tier)["clustering_per_shard"]:
+            problems, cells = check_clustering(rows, report, work)
+            if problems is None:
+                continue
+            n_clu += 1
+            cells.add("class:clustering")
+            acc.hook("report.clustering")
+            if problems:
+                acc.violated({"input": {"rows": rows}, "witness": {"rows": rows, **problems[0], "all": problems}}, cells=cells, cls="clustering",
+                             nontrivial=sorted(map(list, rows)))
+            else:
+                acc.held(cells=cells, cls="clustering", nontrivial=sorted(map(list, rows)))
     acc.hook("report-function-calls", watch.calls)
 
 
